@@ -102,7 +102,12 @@ class Sentinel:
                     sentinel.bad.append(why)
             return orig(items, temporary=temporary) if temporary else orig(items)
 
-        st.append = append
+        try:
+            st.append = append
+        except AttributeError:
+            # a storage class with __slots__ has no per-instance method slot: give this one instance a subclass
+            cls = type(st)
+            st.__class__ = type("Watched" + cls.__name__, (cls,), {"__slots__": (), "append": lambda self_, items, temporary=False: append(items, temporary)})
 
 
 def make_containers(slot, bad):
